@@ -32,7 +32,20 @@ def run_case(case, via_facade=False):
     x, y = case["x"], case["y"]
     kw = matchgen.call_kwargs(case)
     if via_facade:
-        w = Weaver(np.array(case["x_ref"], dtype=float), np.array(case["y_ref"], dtype=float))
+        xr, yr = np.array(case["x_ref"], dtype=float), np.array(case["y_ref"], dtype=float)
+        cx, cy = case.get("facade_pre") or (1.0, 1.0)
+        if not (np.array_equal((xr / cx) * cx, xr) and np.array_equal((yr / cy) * cy, yr)
+                and np.all(np.diff(xr / cx) > 0)):
+            cx = cy = 1.0
+        # the series is constructed in other units and converted: the reference follows, the original does not
+        w = Weaver(xr / cx, yr / cy)
+        if cx != 1.0:
+            w.scale_x(cx)
+        if cy != 1.0:
+            w.scale_y(cy)
+        rx, ry = w.get_reference()
+        if not (np.array_equal(rx, xr) and np.array_equal(ry, yr)):
+            raise Violation("after scale_x / scale_y by powers of two the reference series is not the scaled input")
         w.x, w.y = np.array(x, dtype=float), np.array(y, dtype=float)
         out = w.integral_match(**kw).get()
         if not (isinstance(out, tuple) and len(out) == 2):
@@ -62,8 +75,8 @@ def check_result_shape(z, n):
         raise Violation("result contains non-finite values")
 
 
-def interval_report(case, z, F, R):
-    """per interval: (got, want, tol, pre, scale)"""
+def interval_report(case, z, F, R, gtol=1e-12):
+    """per interval: (got, want, tol, pre, scale); gtol = share of the largest interval's scale granted to all"""
     x, y, xr, yr = case["x"], case["y"], case["x_ref"], case["y_ref"]
     zl = [float(v) for v in z]
     ref_el = oracles.rule_integrals(xr, yr, case["rr"])
@@ -83,7 +96,7 @@ def interval_report(case, z, F, R):
                 + matchgen.fixed_point_bound(x, F, yhats, alpha, j + 1)) * (x[hi] - x[lo])
         rows.append([got, want, scale, pre, leak])
     g = max(r[2] for r in rows)
-    return [(got, want, 1e-9 * scale + 1e-12 * g + leak, pre, scale) for got, want, scale, pre, leak in rows]
+    return [(got, want, 1e-9 * scale + gtol * g + leak, pre, scale) for got, want, scale, pre, leak in rows]
 
 
 def body(ctx, case):
